@@ -11,11 +11,80 @@
 #include <dispenso/task_set.h>
 #include <dispenso/thread_pool.h>
 
+#include <pthread.h>
+#include <algorithm>
 #include <memory>
 
+// ---- engine workaround: canonical thread-stack reuse -------------------------------------------------------------
+// glibc hands a new thread the most recently cached stack that fits, so which of two workers gets which cached stack
+// alternates from one in-process execution to the next. Thread-local addresses follow the stack, moodycamel derives
+// its implicit-producer id from a thread-local address and probes a hash table with it, so the number of atomic
+// operations a worker performs in LimitGatedScheduler::schedule (pipeline stages enqueue without a token) differs
+// between executions of the same schedule: "default schedule is not deterministic". Before every execution this hook
+// starts kNorm real threads, lets them end one by one in ascending stack-address order and joins them, which leaves
+// the stack cache in one canonical order whatever the previous execution did.
+namespace stacknorm {
+constexpr int kNorm = 3;
+struct Slot {
+  pthread_t th;
+  pthread_mutex_t gate;
+  uintptr_t sp;
+};
+Slot g_slot[kNorm];
+pthread_barrier_t g_bar;
+void* run(void* a) {
+  Slot* s = static_cast<Slot*>(a);
+  s->sp = (uintptr_t)__builtin_frame_address(0);
+  pthread_barrier_wait(&g_bar);
+  pthread_mutex_lock(&s->gate);
+  pthread_mutex_unlock(&s->gate);
+  return nullptr;
+}
+void reset() {
+  pthread_barrier_init(&g_bar, nullptr, kNorm + 1);
+  for (int i = 0; i < kNorm; i++) {
+    pthread_mutex_init(&g_slot[i].gate, nullptr);
+    pthread_mutex_lock(&g_slot[i].gate);
+    pthread_create(&g_slot[i].th, nullptr, run, &g_slot[i]); // default attributes: the same 512 KiB stacks pool workers get
+  }
+  pthread_barrier_wait(&g_bar);
+  int order[kNorm];
+  for (int i = 0; i < kNorm; i++) order[i] = i;
+  std::sort(order, order + kNorm, [](int a, int b) { return g_slot[a].sp < g_slot[b].sp; });
+  for (int k = 0; k < kNorm; k++) {
+    Slot& s = g_slot[order[k]];
+    pthread_mutex_unlock(&s.gate);
+    pthread_join(s.th, nullptr);
+    pthread_mutex_destroy(&s.gate);
+  }
+  pthread_barrier_destroy(&g_bar);
+}
+static mc::HookSetter hooks(nullptr, reset);
+} // namespace stacknorm
+
 namespace {
+// mc::cover from task bodies on several threads: the engine's cover table is written with strncpy/strncmp, which the
+// TSan runtime intercepts and reports as a race of the harness with itself; it is bookkeeping, so hide it from TSan
+void cov(const char* name) {
+  mc::TsanIgnore ig;
+  mc::cover(name);
+}
 bool on_pool_thread(dispenso::ThreadPool& pool) {
   return dispenso::detail::PerPoolPerThreadInfo::isPoolRecursive(&pool);
+}
+// a parameter given as "*" is data nondeterminism: every listed value is explored (mc::choose, cost 0), so one run
+// covers the variants of a configuration (each run is a process; on a loaded machine process start-up dominates)
+long pick(const mc::Params& P, const char* key, long def, std::initializer_list<long> vals) {
+  if (P.s(key, "") != "*") return P(key, def);
+  long v = vals.begin()[mc::choose((int)vals.size())];
+  mc::observe(key, v);
+  return v;
+}
+std::string picks(const mc::Params& P, const char* key, const char* def, std::initializer_list<const char*> vals) {
+  if (P.s(key, "") != "*") return P.s(key, def);
+  int c = mc::choose((int)vals.size());
+  mc::observe(key, c);
+  return vals.begin()[c];
 }
 } // namespace
 
@@ -55,10 +124,10 @@ struct WaitScope { // bookkeeping only: "every worker is inside a wait at the sa
     if (worker) {
       int w = s.workers_waiting.add(1) + 1;
       s.max_waiting.max_with(w);
-      if (w == s.N) mc::cover("all_workers_in_wait");
-      if (pool.stealRingsWithWork_.a_.load(std::memory_order_relaxed) != 0) mc::cover("steal_ring_nonempty_at_wait");
+      if (w == s.N) cov("all_workers_in_wait");
+      if (pool.stealRingsWithWork_.a_.load(std::memory_order_relaxed) != 0) cov("steal_ring_nonempty_at_wait");
     } else {
-      mc::cover("t0_in_inner_wait");
+      cov("t0_in_inner_wait");
     }
   }
   ~WaitScope() {
@@ -85,25 +154,25 @@ void run_inner(St& s, dispenso::ThreadPool& pool, char kind, int k, bool ifq) {
   if (!on_pool_thread(pool)) s.outer_on_t0.add(1);
   switch (kind) {
     case 'T': {
-      mc::cover("inner_T");
+      cov("inner_T");
       dispenso::TaskSet ts(pool);
       inner_set(s, pool, ts, k, ifq);
       break;
     }
     case 'C': {
-      mc::cover("inner_C");
+      cov("inner_C");
       dispenso::ConcurrentTaskSet ts(pool);
       inner_set(s, pool, ts, k, ifq);
       break;
     }
     case 'L': {
-      mc::cover("inner_L");
+      cov("inner_L");
       dispenso::ConcurrentTaskSet ts(pool, dispenso::TaskCost::kLightweight);
       inner_set(s, pool, ts, k, ifq);
       break;
     }
     case 'F': {
-      mc::cover("inner_F");
+      cov("inner_F");
       int b = s.base(k);
       dispenso::Future<int> fs[4];
       MC_CHECK(k <= 4, "harness: k too large");
@@ -122,7 +191,7 @@ void run_inner(St& s, dispenso::ThreadPool& pool, char kind, int k, bool ifq) {
       break;
     }
     case 'P': {
-      mc::cover("inner_P");
+      cov("inner_P");
       int b = s.base(k + 1);
       dispenso::TaskSet ts(pool);
       WaitScope w(s, pool);
@@ -130,7 +199,7 @@ void run_inner(St& s, dispenso::ThreadPool& pool, char kind, int k, bool ifq) {
       break;
     }
     case 'B': {
-      mc::cover("inner_B");
+      cov("inner_B");
       int b = s.base(k + 1);
       dispenso::TaskSet ts(pool);
       ts.scheduleBulk((size_t)(k + 1), [&s, b](size_t i) {
@@ -162,8 +231,8 @@ void outer(St& s, dispenso::ThreadPool& pool, Set& set, const std::string& prog,
 
 MC_HARNESS(nest) {
   using namespace nest;
-  int N = (int)P("n", 1), k = (int)P("k", 1), fq = (int)P("fq", 1);
-  std::string prog = P.s("prog", "T"), o = P.s("o", "T");
+  int N = (int)P("n", 1), k = (int)P("k", 1), fq = (int)pick(P, "fq", 1, {1, 3, 0});
+  std::string prog = P.s("prog", "T"), o = picks(P, "o", "T", {"C", "T", "L"});
   St s;
   s.N = N;
   {
@@ -179,7 +248,7 @@ MC_HARNESS(nest) {
       dispenso::ConcurrentTaskSet set(pool, dispenso::TaskCost::kLightweight);
       outer(s, pool, set, prog, k, fq);
     }
-    mc::cover("outer_wait_returned");
+    cov("outer_wait_returned");
   }
   // not part of C06 (it is C02's barrier), but free to look at: nothing was lost on the way
   MC_CHECK(s.outer_ran.get() == (int)prog.size(), "only %d of %d outer tasks ran", s.outer_ran.get(), (int)prog.size());
@@ -239,15 +308,15 @@ void group(St& s, int shape, int a, const int* child_d) {
   MC_CHECK(s.thr[last].get() == me, "the last functor (%d) of parallel_invoke did not run on the calling thread", last);
   for (int i = 0; i + 1 < a; i++) {
     if (s.fin[b + i].get() == 1 && s.thr[b + i].get() == me) {
-      mc::cover("sibling_ran_inline_on_caller");
+      cov("sibling_ran_inline_on_caller");
       s.sib_inline.add(1);
     }
     if (s.fin[b + i].get() == 0) {
-      mc::cover("sibling_pending_at_return");
+      cov("sibling_pending_at_return");
       s.sib_pending.add(1);
     }
     if (s.ran[b + i].get() == 1 && s.thr[b + i].get() != me) {
-      mc::cover("sibling_on_other_thread");
+      cov("sibling_on_other_thread");
       s.sib_other.add(1);
     }
   }
@@ -281,8 +350,17 @@ int expected(int shape, int a, int d) {
 
 MC_HARNESS(pinvoke) {
   using namespace pinv;
-  int N = (int)P("n", 1), a = (int)P("a", 2), d = (int)P("d", 1), mult = (int)P("mult", 4);
-  std::string sh = P.s("shape", "flat"), cost = P.s("cost", "h");
+  int N = (int)P("n", 1), a = (int)P("a", 2), d = (int)P("d", 1), mult = (int)pick(P, "mult", 4, {1, 4});
+  std::string sh = P.s("shape", "flat"), cost = picks(P, "cost", "h", {"h", "l"});
+  if (sh == "*") { // every shape of the matrix in one run (used for the zero-thread pool, where each is one execution)
+    static const struct { const char* s; int a, d; } all[] = {{"flat", 1, 1}, {"flat", 2, 1}, {"flat", 3, 1}, {"flat", 4, 1}, {"bin", 2, 1},
+                                                              {"bin", 2, 2},  {"bin", 2, 3},  {"chain", 2, 4}, {"rchain", 2, 4}};
+    int c = mc::choose(9);
+    mc::observe("shape", c);
+    sh = all[c].s;
+    a = all[c].a;
+    d = all[c].d;
+  }
   int shape = sh == "bin" ? kBin : sh == "chain" ? kChain : sh == "rchain" ? kRChain : kFlat;
   if (shape == kFlat) d = 1;
   St s;
@@ -350,8 +428,8 @@ struct Probe {
       g_m->post_open.max_with(open);
       g_m->post_lvl.max_with(tl_nsp);
     }
-    if (open > 1) mc::cover("body_inside_body");
-    if (tl_nsp > open) mc::cover("body_inside_completion_path");
+    if (open > 1) cov("body_inside_body");
+    if (tl_nsp > open) cov("body_inside_completion_path");
     // stop before the real stack overflows
     MC_CHECK(tl_nsp <= kCeil, "inline nesting reached %d live task frames on one thread (%d bodies open) with n=%d: above the ceiling 4*kMaxInlineDepth=%d",
              tl_nsp, open, g_n.get(), kCeil);
@@ -565,12 +643,12 @@ MC_HARNESS(depth) {
   using namespace dep;
   Cfg c;
   c.N = (int)P("N", 1);
-  c.mult = (int)P("mult", 1);
-  c.smult = (int)P("smult", 1);
-  c.rel = (int)P("rel", 0);
-  c.lf = (int)P("lf", 30);
+  c.mult = (int)pick(P, "mult", 1, {1, 32});
+  c.smult = (int)pick(P, "smult", 1, {1, 4});
+  c.rel = (int)pick(P, "rel", 0, {0, 1});
+  c.lf = (int)pick(P, "lf", 30, {30, 0});
   c.prog = P.s("prog", "sched_pool");
-  c.sched = P.s("sched", "p");
+  c.sched = picks(P, "sched", "p", {"p", "t", "c"});
   int n = (int)P("n", 8);
   Meter m1;
   m1.n0 = (int)P("n0", 0);
@@ -581,24 +659,24 @@ MC_HARNESS(depth) {
     fprintf(stderr, "DEPTH prog=%s N=%d n=%d: lvl %d open %d | index < %d: lvl %d open %d | bodies %d\n", c.prog.c_str(), c.N, n, m1.max_lvl.get(), m1.max_open.get(),
             m1.n0, m1.pre_lvl.get(), m1.pre_open.get(), m1.started.get());
   if (m1.n0 > 0 && n > m1.n0) {
-    mc::cover("compared_against_baseline");
+    cov("compared_against_baseline");
     MC_CHECK(m1.post_lvl.get() <= m1.pre_lvl.get() + m1.tol,
              "inline nesting depth grows with the program size (n=%d): a body with index >= %d started with %d live task frames on its thread, the bodies with index < %d never saw more than %d (bodies open: %d vs %d)",
              n, m1.n0, m1.post_lvl.get(), m1.n0, m1.pre_lvl.get(), m1.post_open.get(), m1.pre_open.get());
     MC_CHECK(m1.post_open.get() <= m1.pre_open.get() + m1.tol,
              "number of task bodies open on one thread grows with the program size (n=%d): %d open for an index >= %d, never more than %d for the indices below", n,
              m1.post_open.get(), m1.n0, m1.pre_open.get());
-    if (m1.max_lvl.get() == m1.pre_lvl.get()) mc::cover("depth_equal_to_baseline");
+    if (m1.max_lvl.get() == m1.pre_lvl.get()) cov("depth_equal_to_baseline");
   }
   {
     char name[48];
     snprintf(name, sizeof name, "lvl=%d", m1.max_lvl.get());
-    mc::cover(name);
+    cov(name);
     snprintf(name, sizeof name, "open=%d", m1.max_open.get());
-    mc::cover(name);
+    cov(name);
   }
-  if (m1.max_lvl.get() >= dispenso::detail::kMaxInlineDepth) mc::cover("depth_guard_saturated");
-  if (m1.max_lvl.get() > 1) mc::cover("nested_inline_execution");
+  if (m1.max_lvl.get() >= dispenso::detail::kMaxInlineDepth) cov("depth_guard_saturated");
+  if (m1.max_lvl.get() > 1) cov("nested_inline_execution");
   mc::observe("lvl", m1.max_lvl.get());
   mc::observe("open", m1.max_open.get());
 }
